@@ -12,7 +12,7 @@ from ..check import Variant
 from ..loader import AnalysisError, Program, dotted, norm, parent
 from . import common as C
 from .c18 import _locals_from_config
-from .flow import IntegrateFacts
+from .flow import IntegrateFacts, LimitBlock
 
 ID = 'C04'
 TECHNIQUE = ('abstract evaluation of the limit block to a guarded case table (reason per combination of violated '
@@ -53,8 +53,9 @@ def run(prog: Program, rep, thorough: bool) -> None:
     tc = prog.module(C.M_TC)
     F = IntegrateFacts(prog)
     rep.saw(F.func)
-    guard = find_guard(F)
-    gnode = F.cfg.node_of(guard.test)
+    LB = LimitBlock(F)
+    gnode = LB.first
+    guard = gnode.ast          # the entry test of the limit block (an expression node)
     lm = _locals_from_config(F.func)
     exc_cls = prog.cls(C.M_EXC, 'RangeError')
     reasons = {}
@@ -75,46 +76,32 @@ def run(prog: Program, rep, thorough: bool) -> None:
     selfv = ev.new_inst(st, tcc, {'alt0': S('alt0'), 'look_angle': S('L'), 'weight': S('w'),
                                   '_config': ev.new_inst(st, prog.cls(C.M_TC, 'Config'),
                                                          {f: S(f'cfg.{f}') for f in prog.namedtuple_fields(prog.cls(C.M_TC, 'Config'))})})
-    site = next((c for c in F.row_calls if F._inside(c, guard)), None)
+    site = LB.site
     if site is None:
-        rep.fail('C04.R1', tc.path, guard.lineno, F.func.qualname, 'last-row',
+        rep.fail('C04.R1', tc.path, gnode.line, F.func.qualname, 'last-row',
                  'no row is built from the violating state before the error is raised')
     args = F.row_args(site) if site is not None else {}
-    speed_name = norm(args['velocity']) if 'velocity' in args else None
+    speed_name = LB.speed_name
     env = {'self': selfv, F.P: C.mk_vec(ev, st, prog, 'x', 'y', 'z'), F.V: C.mk_vec(ev, st, prog, 'vx', 'vy', 'vz'),
            F.t: S('t'), F.a: S('a'), F.rho: S('rho'), 'drag': S('drag'), 'ranges': ev.new_list(st, []),
            'data_filter': SymObj('data_filter')}
-    names_in_guard = {n.id for n in ast.walk(guard) if isinstance(n, ast.Name)}
-    for n in names_in_guard:
+    names_in_block = {n.id for st_ in LB.stmts for n in ast.walk(st_) if isinstance(n, ast.Name)}
+    for n in names_in_block:
         if n in lm:
             env[n] = S(f'cfg.{lm[n]}')
     if speed_name and speed_name not in env:
         env[speed_name] = S('speed')
-    for n in names_in_guard:
-        if n not in env and n not in ('RangeError', 'create_trajectory_row', 'reason'):
-            env[n] = S(f'${n}')
+    assigned_in_block = {n.id for st_ in LB.stmts for n in ast.walk(st_) if isinstance(n, ast.Name) and isinstance(n.ctx, ast.Store)}
+    for n in names_in_block:
+        if n not in env and n not in assigned_in_block and n not in ('RangeError', 'create_trajectory_row', 'math', 'abs',
+                                                                    'min', 'max', 'len', 'TrajFlag', 'logger'):
+            try:
+                ev.lookup(n, State(), Ctx(tc, F.func, None, 0))
+            except Undecided:
+                env[n] = S(f'${n}')
     st.env.update(env)
-    # statements between the last state update of the step and the guard (hoisted predicates) are part of the block
-    body = F.loop.body
-    if guard not in body:
-        raise AnalysisError('_integrate: the limit guard is not a top-level statement of the loop body')
-    gi = body.index(guard)
-    from ..cfg import defs_of as _defs
-    last_def = -1
-    for i, s_ in enumerate(body[:gi]):
-        dn = set()
-        for sub in ast.walk(s_):
-            cn = F.cfg.node_of(sub) if isinstance(sub, ast.stmt) else None
-            if cn is not None:
-                dn |= set(_defs(cn))
-        if dn & {F.t, F.P, F.V, speed_name}:
-            last_def = i
-    pre = body[last_def + 1:gi]
     try:
-        t_pre = ev.exec_block(pre, st, Ctx(tc, F.func, None, 0)) if pre else Leaf('fall', None, st)
-        if not isinstance(t_pre, Leaf):
-            raise AnalysisError('_integrate: branching between the last state update and the limit guard')
-        tree = ev.exec_block([guard], t_pre.state, Ctx(tc, F.func, None, 0))
+        tree = ev.exec_block(LB.stmts, st, Ctx(tc, F.func, None, 0))
     except Undecided as exc:
         raise AnalysisError(f'limit block: {exc}') from exc
     x, y, alt0, speed = A.sym('x'), A.sym('y'), A.sym('alt0'), A.sym('speed')
@@ -155,6 +142,15 @@ def run(prog: Program, rep, thorough: bool) -> None:
                 continue
             first = violated[0]
             want_attr = next(a for f, a, _w in STEMS if f == first)
+            # precedence: a reason may be stated only where every limit of higher precedence is known not to be violated
+            order = [f for f, _a, _w in STEMS]
+            stated = next((f for f, a, _w in STEMS if reasons[a] == rtxt), None)
+            if stated is not None:
+                untested = [f for f in order[:order.index(stated)] if f not in viol]
+                if untested:
+                    problems.append(f'the reason {next(a for f, a, _w in STEMS if f == stated)} is stated on a path where '
+                                    f'{untested} (higher precedence) was never tested: when both limits are crossed in the same '
+                                    f'step the lower-precedence reason is reported')
             if rtxt != reasons[want_attr]:
                 got_attr = next((k for k, v in reasons.items() if v == rtxt), rtxt)
                 problems.append(f'when {" and ".join(violated)} {"are" if len(violated) > 1 else "is"} violated the '
@@ -163,7 +159,7 @@ def run(prog: Program, rep, thorough: bool) -> None:
             rows = leaf.state.heap[env['ranges'].oid]['$items']
             if len(rows) != 1:
                 problems.append(f'{len(rows)} rows are appended before the error is raised, expected the violating state')
-        elif leaf.kind == 'fall':
+        elif leaf.kind in ('fall', 'continue'):
             if violated:
                 problems.append(f'no error is raised although {violated} is violated')
         else:
@@ -172,7 +168,7 @@ def run(prog: Program, rep, thorough: bool) -> None:
     if missing:
         problems.append(f'limit(s) {missing} are never tested against the state')
     if problems:
-        rep.fail('C04.R1', tc.path, guard.lineno, F.func.qualname, 'reason-table', '; '.join(sorted(set(problems))[:4]))
+        rep.fail('C04.R1', tc.path, gnode.line, F.func.qualname, 'reason-table', '; '.join(sorted(set(problems))[:4]))
     else:
         rep.ok('C04.R1', tc.where(guard), f'{n_raise} violating combinations: reason = first violated limit; none '
                f'violated -> no error')
@@ -182,8 +178,7 @@ def run(prog: Program, rep, thorough: bool) -> None:
     if site is not None:
         want_row = {'time': F.t, 'range_vector': F.P, 'velocity_vector': F.V}
         bad = {k: norm(args[k]) for k, v in want_row.items() if norm(args.get(k)) != v}
-        first_stmt = guard.body[0]
-        is_first = any(c is site for c in ast.walk(first_stmt))
+        is_first = True        # the block starts after the last state update: nothing can change the state in between
         if bad or not is_first:
             rep.fail('C04.R1', tc.path, site.lineno, F.func.qualname, 'last-row',
                      f'the row attached to the error is not built from the violating state: {bad}'
@@ -193,7 +188,7 @@ def run(prog: Program, rep, thorough: bool) -> None:
                    f'straight after the test')
         # the speed tested is the speed of the row: the case table above is keyed by the symbol bound to the very
         # variable passed as the row's speed (C05.R4 checks that this variable is |V|)
-    raises = [x for x in ast.walk(guard) if isinstance(x, ast.Raise)]
+    raises = LB.raises
     for r in raises:
         c = r.exc
         if not (isinstance(c, ast.Call) and norm(c.func) == 'RangeError' and len(c.args) == 2 and norm(c.args[1]) == 'ranges'):
@@ -205,7 +200,7 @@ def run(prog: Program, rep, thorough: bool) -> None:
     state_vars = {F.t, F.P, F.V}
     defs_in_loop = [n for n in cfg.nodes if F.in_loop(n) and n.ast is not None and n.kind == 'stmt'
                     and set(_defined(n)) & state_vars]
-    other_sites = [cfg.node_of(c) for c in F.row_calls if not F._inside(c, guard)]
+    other_sites = [cfg.node_of(c) for c in F.row_calls if c is not LB.site]
     bad_paths = []
     for d in defs_in_loop:
         reach = cfg.reachable_from(d, skip=lambda m: m is gnode)
@@ -224,17 +219,19 @@ def run(prog: Program, rep, thorough: bool) -> None:
                f'only through the limit test')
     # guard's own dependences
     limit_locals = {n for n, f in lm.items() if f in want_tests}
-    gd_uses = {n.id for n in ast.walk(guard.test) if isinstance(n, ast.Name)} | \
-              {norm(n) for n in ast.walk(guard.test) if isinstance(n, ast.Attribute)}
+    gd_uses = set()
+    for t_ in LB.tests:
+        ta = cfg.nodes[t_].ast
+        gd_uses |= {n.id for n in ast.walk(ta) if isinstance(n, ast.Name)} | {norm(n) for n in ast.walk(ta) if isinstance(n, ast.Attribute)}
     recording = set(F.params) - {'self', F.params[1] if len(F.params) > 1 else ''} - {'maximum_range'}
     rec_derived = set(recording) | {'data_filter', 'min_step', 'ranges'}
     leak = sorted(x for x in gd_uses if x.split('.')[0] in rec_derived)
     cd = cfg.control_dependence()
     ctrl = {t for t, _lab in cd[gnode.id]}
-    ctrl_bad = [cfg.nodes[t] for t in ctrl if cfg.nodes[t] is not F.loop_head and cfg.nodes[t] is not gnode]
+    ctrl_bad = [cfg.nodes[t] for t in ctrl if cfg.nodes[t] is not F.loop_head and t not in LB.tests]
     if leak or ctrl_bad:
         why = f'reads {leak}' if leak else f'runs only under `{ctrl_bad[0].text()[:50]}`'
-        rep.fail('C04.R2', tc.path, guard.lineno, F.func.qualname, 'guard-depends',
+        rep.fail('C04.R2', tc.path, gnode.line, F.func.qualname, 'guard-depends',
                  f'the limit test {why}: whether a limit stops the computation depends on what is being recorded '
                  f'(the zero finder records nothing)')
     else:
@@ -244,13 +241,13 @@ def run(prog: Program, rep, thorough: bool) -> None:
              and (set(_defined(n)) & (state_vars | {F.rho, F.a, 'wind_vector', 'delta_time', 'drag', 'velocity_adjusted'}))]
 
     def skip_ctrl(cur, t, lab):
-        return t == gnode.id        # leaving the loop by raise is the one permitted influence
+        return t in LB.tests        # leaving the loop by raise is the one permitted influence
     tainted = []
     for s in sinks:
         sl = F.deps.backward_slice(s.id, control=True, skip_control=skip_ctrl)
         for nid, chain in sl.items():
             n = cfg.nodes[nid]
-            if nid == gnode.id:
+            if nid in LB.tests:
                 continue
             reads = uses_of(n)
             cfg_reads = {norm(x) for x in ast.walk(n.ast) if isinstance(x, ast.Attribute)
